@@ -52,7 +52,7 @@ impl Prop for C06 {
         "C06"
     }
     fn rule(&self) -> &'static str {
-        "phase primitives: every function exported by the std primitive modules (types read from the live VM) called with boundary-value argument tuples of its type (full cross product for arity <= 2, sampled beyond), run with run_io(true); phase histories: random interleavings (<= 12 steps) of failing and succeeding generated programs on one long-lived VM, after every step a fixed probe set is evaluated and compared with a fresh VM, and frames / value-stack length / allocated memory after collect() are compared with the pre-failure baseline; non-trivial = the call / history contains >= 1 failing evaluation; distinct = (primitive, argument tuple) or history text"
+        "phase primitives: every function exported by the std primitive modules (types read from the live VM) called with boundary-value argument tuples of its type (full cross product for arity <= 2 and whenever it has at most 4000 tuples, sampled beyond), run with run_io(true); phase histories: random interleavings (<= 12 steps) of failing and succeeding generated programs on one long-lived VM, after every step a fixed probe set is evaluated and compared with a fresh VM, and frames / value-stack length / allocated memory after collect() are compared with the pre-failure baseline; non-trivial = the call / history contains >= 1 failing evaluation; distinct = (primitive, argument tuple) or history text"
     }
     fn assumptions(&self) -> Vec<String> {
         let mut v: Vec<String> = SKIPPED.iter().map(|(p, why)| format!("not exercised: {} ({})", p, why)).collect();
@@ -100,6 +100,10 @@ fn values_for(ty: &str) -> Vec<(String, &'static str)> {
             (s("63"), "small"),
             (s("64"), "small"),
             (s("100"), "small"),
+            (s("3"), "just-past-small-collections"),
+            (s("5"), "just-past-small-collections"),
+            (s("35184372088832"), "huge-size"),
+            (s("4611686018427387904"), "size-times-eight-overflows"),
             (s("((-9223372036854775807) #Int- 1)"), "min"),
             (s("9223372036854775807"), "max"),
             (s("1114112"), "beyond-char"),
@@ -182,9 +186,11 @@ fn enumerate_calls(vm: &Thread) -> (Vec<Value>, Vec<String>) {
                 unsupported.push(format!("{}.{} : {}", module, fname, args.join(" -> ")));
                 continue;
             }
-            // cross product for arity <= 2; beyond that each value appears with a rotating partner
+            // cross product for arity <= 2 and for every primitive with at most 4000 tuples; beyond
+            // that each value appears with a rotating partner
             let mut tuples: Vec<Vec<usize>> = Vec::new();
-            if choices.len() <= 2 {
+            let product: usize = choices.iter().map(|c| c.len()).product();
+            if choices.len() <= 2 || product <= 4000 {
                 let mut idx = vec![0usize; choices.len()];
                 loop {
                     tuples.push(idx.clone());
